@@ -879,6 +879,10 @@ func runBoot(c *mon.Case) {
 		if c.Idx%2 == 0 && len(extra) == 0 {
 			extra = append(extra, "-r")
 		}
+		// the alphabet is stated on every command line: a short bootstrap replicate of a protein alignment may
+		// hold only letters that are also nucleotide codes (auto-detection then says nucleotides and the protein
+		// model is refused - met at thorough seed 1, case 337; a harness matter, not a reproducibility one)
+		extra = append(extra, "--alphabet", "aa")
 	}
 	c.Input(map[string]interface{}{"model": model, "seed": seed, "nboot": nb, "extra": extra, "rows": in.ntRows, "protein": protein})
 	bin := binary()
